@@ -643,6 +643,8 @@ class Interp:
 
     def s_For(self, s, fr):
         it = self.force(self.eval(s.iter, fr))
+        if isinstance(it, VGen):
+            return self.for_generator(s, fr, it)
         it = self.iterable_of(it)
         if isinstance(it, VDict):
             it = VList([self.const(k) for k in it.d])
@@ -676,6 +678,71 @@ class Interp:
                     pass
                 return
         self.loop(s, fr, it)
+
+    def for_generator(self, s, fr, gen):
+        """`for x in g(...)` over a repository generator function (opt-in: reg.lazy_generators).  Python runs the two
+        bodies as coroutines: the generator runs up to a `yield v`, the loop body runs with x = v, the generator
+        resumes.  That interleaving is executed literally: the generator body is run in place and every `yield`
+        runs the consumer's loop body (no summary, no list of results).  Loops inside the generator are cut with
+        their own sidecar invariant PLUS the invariants of every enclosing generator-for (see loop())."""
+        fd = gen.f.fdef
+        if yield_inside_try(fd.node):
+            # an exception raised by the consumer's body must not be seen by a handler of the generator
+            raise OutOfSubset(f"generator {fd.key}: yield inside try/with")
+        ordn = static_loop_ordinal(fr.fdef, s) if fr.fdef is not None else 0
+        c = self.reg.contracts.get(fr.fdef.key) if fr.fdef else None
+        spec = (c.loops.get(ordn) if c is not None else None) or {}
+        fn = fr.fdef.key if fr.fdef else "?"
+        ent = {"s": s, "fr": fr, "spec": spec, "fn": fn, "ordn": ordn, "entry": self.snapshot_frame(fr)}
+        for gname, gexpr in spec.get("ghost_init", {}).items():
+            fr.locals[gname] = self.eval_spec(gexpr, fr, entry=ent["entry"])
+            self.path_ghost_frames[gname] = fr
+        stack = self.__dict__.setdefault("gen_for_stack", [])
+
+        def on_yield(value):
+            self.ctx.event("for-body-start", fn, ordn)
+            self.assign(s.target, value, fr)
+            iter_start = self.snapshot_frame(fr)
+            fr.iter_start = iter_start
+            try:
+                self.exec_block(s.body, fr)
+            except ContinueSig:
+                pass
+            except BreakSig:
+                raise GenStop(ent, None)
+            except ReturnSig as r:
+                raise GenStop(ent, r)
+            for upd_name, upd in spec.get("ghost_update", {}).items():
+                fr.locals[upd_name] = self.eval_spec(upd, fr, entry=ent["entry"])
+            for i, be in enumerate(spec.get("body_ensures", [])):
+                self.ctx.prove(self.truth(self.eval_spec(be, fr, entry=ent["entry"], extra={"__iter_start": iter_start})),
+                               f"{fn}#loop{ordn}.body{i}", {"kind": "loop-body", "src": be})
+            self.ctx.event("for-body-end", fn, ordn)
+            return NONE
+
+        f, args = gen.f, gen.args
+        nf = Frame(fd, fd.module, args[0] if (fd.cls is not None and args and not is_static(fd)) else None, f.closure)
+        self.bind_args(fd.node, args, gen.kwargs, nf, Frame(None, fd.module, None, f.closure))
+        nf.on_yield = on_yield
+        if self.depth >= self.reg.max_inline_depth:
+            raise OutOfSubset(f"inline depth exceeded at {fd.key}")
+        stack.append(ent)
+        self.depth += 1
+        try:
+            try:
+                self.exec_block(fd.node.body, nf)
+            except ReturnSig:
+                pass            # the generator's own return: StopIteration, the loop ends normally
+        except GenStop as g:
+            if g.ent is not ent:
+                raise
+            if g.ret is not None:
+                raise g.ret     # `return` inside the consumer's loop body
+            return              # `break`: no else clause
+        finally:
+            self.depth -= 1
+            stack.pop()
+        self.exec_block(s.orelse, fr)
 
     def iterable_of(self, it):
         """what a for-loop / comprehension iterates over when handed a JSON value"""
@@ -758,6 +825,13 @@ class Interp:
         for i, inv in enumerate(spec["invariant"]):
             self.ctx.prove(self.truth(eval_spec_aliased(inv, fr, entry=entry)), f"{fn}#loop{ordn}.inv{i}.entry",
                            {"kind": "loop-entry", "src": inv})
+        # a loop inside a generator that is being consumed by `for` loops (for_generator): the consumers' bodies run
+        # inside this loop's iterations, so their invariants are cut here too and what they modify is havocked
+        outer = list(getattr(self, "gen_for_stack", ()))
+        for E in outer:
+            for i, inv in enumerate(E["spec"].get("invariant", [])):
+                self.ctx.prove(self.truth(self.eval_spec(inv, E["fr"], entry=E["entry"])),
+                               f"{E['fn']}#loop{E['ordn']}.inv{i}.entry", {"kind": "loop-entry", "src": inv})
         # havoc
         targets = set(spec.get("modifies", []))
         targets |= assigned_targets(s.body, self, fr)
@@ -772,8 +846,22 @@ class Interp:
             targets.add(("local", g))
         for tg in sorted(targets, key=str):
             self.havoc_target(tg, fr)
+        outer_targets = []
+        for E in outer:
+            tgs = set(tuple(t) for t in E["spec"].get("modifies", [])) | assigned_targets(E["s"].body, self, E["fr"])
+            for n in ast.walk(E["s"].target):
+                if isinstance(n, ast.Name):
+                    tgs.add(("local", n.id))
+            for g in E["spec"].get("ghost_init", {}):
+                tgs.add(("local", g))
+            outer_targets.append(tgs)
+            for tg in sorted(tgs, key=str):
+                self.havoc_target(tg, E["fr"])
         for inv in spec["invariant"]:
             self.ctx.assume(self.truth(eval_spec_aliased(inv, fr, entry=entry)))
+        for E in outer:
+            for inv in E["spec"].get("invariant", []):
+                self.ctx.assume(self.truth(self.eval_spec(inv, E["fr"], entry=E["entry"])))
         # loop condition
         if it is None:
             cond = self.truth(self.eval(s.test, fr))
@@ -821,6 +909,10 @@ class Interp:
                     fr.locals[old_n] = fr.lookup(new_n)
             iter_start = self.snapshot_frame(fr)
             fr.iter_start = iter_start
+            frame_snaps = None
+            if getattr(self.reg, "check_loop_frame", False):
+                frame_snaps = [(fr, iter_start, targets)] + [(E["fr"], self.snapshot_frame(E["fr"]), tg)
+                                                             for E, tg in zip(outer, outer_targets)]
             try:
                 try:
                     self.exec_block(s.body, fr)
@@ -842,6 +934,23 @@ class Interp:
             for i, inv in enumerate(spec["invariant"]):
                 self.ctx.prove(self.truth(eval_spec_aliased(inv, fr, entry=entry)), f"{fn}#loop{ordn}.inv{i}.preserved",
                                {"kind": "loop-preserve", "src": inv})
+            for E in outer:
+                for i, inv in enumerate(E["spec"].get("invariant", [])):
+                    self.ctx.prove(self.truth(self.eval_spec(inv, E["fr"], entry=E["entry"])),
+                                   f"{E['fn']}#loop{E['ordn']}.inv{i}.preserved", {"kind": "loop-preserve", "src": inv})
+            if frame_snaps is not None:
+                # opt-in (reg.check_loop_frame): whatever this iteration changed must have been havocked at the cut
+                declared, und = set(), {}
+                for f_, snap_, tg in frame_snaps:
+                    declared |= {resolve_target(t, f_) for t in tg}
+                for f_, snap_, tg in frame_snaps:
+                    for loc, pretty in changed_locations(snap_, f_).items():
+                        if loc not in declared:
+                            und[loc] = pretty
+                self.ctx.prove(z3.BoolVal(not und), f"{fn}#loop{ordn}.frame",
+                               {"kind": "loop-frame", "definite": True,
+                                "src": "every location the iteration changed is havocked at the loop cut"
+                                       + (f" (undeclared: {sorted(und.values())})" if und else "")})
             raise PathEnd("loop cut")
         else:
             self.ctx.cover(f"{fn}#loop{ordn}.exit")
@@ -1498,6 +1607,15 @@ class Interp:
         h2 = getattr(self.reg, "yield_model", None)
         if h2 is not None:
             return h2(self, e, fr)
+        if getattr(self.reg, "lazy_generators", False):
+            v = self.eval(e.value, fr) if e.value is not None else NONE
+            f0 = fr
+            while f0 is not None and getattr(f0, "on_yield", None) is None:
+                f0 = f0.parent
+            self.ctx.event("yield", v, fr.fdef.key if fr.fdef is not None else "?")     # every yield is recorded in the trace
+            if f0 is not None:
+                return f0.on_yield(v)        # consumed by a for loop: its body runs now (for_generator)
+            return NONE
         h = self.reg.ext_models.get("yield")
         if h is None:
             raise OutOfSubset(f"expression Yield at line {getattr(e, 'lineno', '?')}")
@@ -2367,6 +2485,8 @@ class Interp:
             r = self.reg.automat.maybe_dispatch(self, f, fd, args, kwargs, fr)
             if r is not _NOCONST:
                 return r
+        if getattr(self.reg, "lazy_generators", False) and is_generator_def(fd.node):
+            return VGen(f, list(args), dict(kwargs))      # nothing runs until it is iterated (for_generator)
         fm = self.reg.func_models.get(key)
         if fm is not None:
             return fm(self, args, kwargs, fr)
@@ -2473,6 +2593,111 @@ class Interp:
             return self.eval(tree.body, sf)
         finally:
             self.spec_mode -= 1
+
+
+class VGen(V):
+    """a generator object that has not started running: the function and its bound arguments"""
+
+    def __init__(self, f, args, kwargs):
+        self.f = f
+        self.args = args
+        self.kwargs = kwargs
+
+
+class GenStop(Exception):
+    """the consumer's loop body left the loop (break / return): unwinds the generator body run by for_generator"""
+
+    def __init__(self, ent, ret):
+        self.ent = ent
+        self.ret = ret
+
+
+def _own_nodes(fnode):
+    """nodes of a function body, not descending into nested functions / lambdas / classes"""
+    stack = list(fnode.body)
+    while stack:
+        n = stack.pop()
+        yield n
+        for ch in ast.iter_child_nodes(n):
+            if not isinstance(ch, (ast.FunctionDef, ast.AsyncFunctionDef, ast.Lambda, ast.ClassDef)):
+                stack.append(ch)
+
+
+def is_generator_def(fnode):
+    return not isinstance(fnode, ast.Lambda) and any(isinstance(n, (ast.Yield, ast.YieldFrom)) for n in _own_nodes(fnode))
+
+
+def yield_inside_try(fnode):
+    for n in _own_nodes(fnode):
+        if isinstance(n, (ast.Try, ast.With)) and any(isinstance(x, (ast.Yield, ast.YieldFrom)) for x in ast.walk(n)):
+            return True
+    return False
+
+
+def resolve_target(tg, fr):
+    """a havoc target as a location: ("field", object id, field) or ("local", name)"""
+    if tg[0] == "local" and len(tg) == 2:
+        return ("local", tg[1])
+    o = fr.lookup(tg[1]) if tg[0] == "local" else fr.selfobj
+    path = tg[2:] if tg[0] == "local" else tg[1:]
+    for p_ in path[:-1]:
+        o = o.inner if isinstance(o, VOpt) else o
+        o = o.fields.get(p_) if isinstance(o, VObj) else None
+    o = o.inner if isinstance(o, VOpt) else o
+    if not isinstance(o, VObj) or not path:
+        return ("unresolved",) + tuple(tg)
+    return ("field", o.oid, path[-1])
+
+
+def changed_locations(snap, fr):
+    """{location: readable path} for everything whose value differs between a frame snapshot and the frame now"""
+    out = {}
+    seen = set()
+
+    def same_z(a, b):
+        try:
+            return a.eq(b) or z3.simplify(a).eq(z3.simplify(b))
+        except Exception:
+            return False
+
+    def differs(a, b):
+        """values that are not objects"""
+        if a is b:
+            return False
+        if isinstance(a, VOpt) and isinstance(b, VOpt):
+            return not same_z(a.isnone, b.isnone) or differs(a.inner, b.inner)
+        if isinstance(a, VObj) and isinstance(b, VObj):
+            walk(a, b, "")
+            return a.oid != b.oid
+        if type(a) is not type(b):
+            return True
+        if isinstance(a, (VFunc, VClass, VExt)) or a is NONE:
+            return False
+        if isinstance(a, VMap):
+            return not (same_z(a.present, b.present) and same_z(a.val, b.val))
+        if isinstance(a, (VList, VTuple)):
+            return len(a.items) != len(b.items) or any(differs(x, y) for x, y in zip(a.items, b.items))
+        if isinstance(a, VDict):
+            return set(a.d) != set(b.d) or any(differs(a.d[k], b.d[k]) for k in a.d)
+        z_a, z_b = getattr(a, "z", None), getattr(b, "z", None)
+        if z_a is None or z_b is None:
+            return z_a is not z_b
+        return not same_z(z_a, z_b)
+
+    def walk(a, b, pretty):
+        if a.oid != b.oid or a.oid in seen:
+            return
+        seen.add(a.oid)
+        for k in set(a.fields) | set(b.fields):
+            if k not in a.fields or k not in b.fields or differs(a.fields[k], b.fields[k]):
+                out[("field", a.oid, k)] = f"{a.cls}.{k}"
+
+    for k, v in fr.locals.items():
+        if k in snap.locals and k != "self" and differs(snap.locals[k], v):
+            out[("local", k)] = k
+    if fr.selfobj is not None and snap.selfobj is not None:
+        walk(snap.selfobj, fr.selfobj, "self")
+    return out
 
 
 class VStarred(V):
@@ -2732,6 +2957,28 @@ def assigned_targets(stmts, interp, fr, depth=0, seen=None):
                 p = path_of(n.func)
                 if p and p[0] == "self" and len(p) == 2 and fr.fdef is not None and fr.fdef.cls is not None and depth < 4:
                     m = fr.fdef.cls.methods.get(p[1])
+                    am = getattr(interp.reg, "automat", None)
+                    mach = am.machine_of(fr.fdef.cls) if am is not None and getattr(am, "havoc_inputs", False) else None
+                    if mach is not None and p[1] in mach.inputs and ("input", m.key) not in seen:
+                        # opt-in (reg.automat.havoc_inputs): an Automat input changes the state and runs the outputs of its rows
+                        seen.add(("input", m.key))
+                        out.add(("self", "__state"))
+                        for (st_, inp_), (_e, outs_, _c) in mach.table.items():
+                            if inp_ != p[1]:
+                                continue
+                            for o_ in outs_:
+                                om = mach.outputs[o_]
+                                if om.key in seen:
+                                    continue
+                                seen.add(om.key)
+                                oc = interp.reg.contracts.get(om.key)
+                                if oc is not None and not oc.inline:
+                                    for f in oc.modifies:
+                                        out.add(("self",) + tuple(f.split(".")))
+                                else:
+                                    sub = assigned_targets(om.node.body, interp, fr, depth + 1, seen)
+                                    out |= {t for t in sub if t[0] == "self"}
+                        continue
                     if m is not None and m.key not in seen:
                         seen.add(m.key)
                         c = interp.reg.contracts.get(m.key)
